@@ -135,6 +135,22 @@ pub fn exec(f: &[&str]) -> Option<String> {
             jsonb::convert_to_comparable(&da, &mut ka);
             jsonb::convert_to_comparable(&db, &mut kb);
             let ko = ka.cmp(&kb);
+            // the same two documents given as JSON text in either position: keys and compare must agree there too
+            let text_of = |d: &Vec<u8>| -> Option<Vec<u8>> {
+                let v = jsonb::from_slice(d).ok()?;
+                if crate::gen_text::has_nan(&v) { return None; }
+                let t = jsonb::to_string(d).into_bytes();
+                if jsonb::parse_value(&t).ok()?.to_vec() == *d { Some(t) } else { None }
+            };
+            if let (Some(ta), Some(tb)) = (text_of(&da), text_of(&db)) {
+                for (xa, xb, what) in [(&ta, &db, "text/jsonb"), (&da, &tb, "jsonb/text"), (&ta, &tb, "text/text")] {
+                    let (mut k1, mut k2) = (vec![], vec![]);
+                    jsonb::convert_to_comparable(xa, &mut k1);
+                    jsonb::convert_to_comparable(xb, &mut k2);
+                    if k1 != ka || k2 != kb { return Some(format!("MISMATCH class=representation key of the {} form differs from the key of the JSONB form", what)); }
+                    if jsonb::compare(xa, xb).ok() != jsonb::compare(&da, &db).ok() { return Some(format!("MISMATCH class=representation compare of the {} forms differs from compare of the JSONB forms", what)); }
+                }
+            }
             match cmp_docs(&da, &db) {
                 Ok(co) if co == ko => "ok".into(),
                 Ok(co) => {
